@@ -363,7 +363,7 @@ def run_guarded(F, fn):
 
 
 import re as _re
-_SHAPE_RE = _re.compile(r"shape|broadcast|align along axis|axis lengths|dimension|same length", _re.I)
+_SHAPE_RE = _re.compile(r"shape|broadcast|align along axis|axis lengths|dimension|same length|out of bounds", _re.I)
 
 
 def _argkind(a):
@@ -635,10 +635,12 @@ def initial_states(D, tier_profiles=None, shapes=None, gmode="all"):
 
 # ------------------------------------------------------------------------------------------------------------------
 class Node:
-    __slots__ = ("obj", "ref", "key", "init")
+    """BFS node.  live_ok: every step of the history that led here passed through ALL its forms, so the in-place
+    replay of that history (oracle f) is meaningful; after a recorded violation it would only repeat it."""
+    __slots__ = ("obj", "ref", "key", "init", "live_ok")
 
-    def __init__(self, obj, ref, key, init):
-        self.obj, self.ref, self.key, self.init = obj, ref, key, init
+    def __init__(self, obj, ref, key, init, live_ok=True):
+        self.obj, self.ref, self.key, self.init, self.live_ok = obj, ref, key, init, live_ok
 
 
 def opname(op):
@@ -704,6 +706,13 @@ def step(ctx, D, node, op, history, do_live=True):
             sig = F.sig(fkind)
             if D.scaled and not F.base.startswith(D.name + ".") and fkind in (":data", ":shape"):
                 # a scaled class inherited a structural method that knows nothing about location / scale
+                if kind == "taxa":
+                    # value-level consequences of location/scale handling along the taxa axis are property C15's
+                    # (DESIGN section 3, C03 "State"): recorded there, only counted here; the form is not used as successor
+                    ctx.count(f"deferred-to-C15:{D.name}.{F.meth}{fkind}")
+                    if is_root:
+                        root_fail[F.mutating] = (fkind, None)
+                    continue
                 sig = f"{D.name}:inherited-{kind}-axis-method{fkind}"
             if is_root:
                 root_fail[F.mutating] = (fkind, sig)
@@ -711,16 +720,19 @@ def step(ctx, D, node, op, history, do_live=True):
                 sig = root_fail[F.mutating][1]       # the dispatching form fails exactly as the form it dispatches to
             ctx.violation(sig, f"[{D.name}.{F.meth}] " + detail, case)
     ctx.count(f"op:{D.name}:{opname(op)}")
+    if op.get("operand"):
+        ctx.flag(f"operand-{op['operand']}:{D.name}:{kind}")
     if not passed:
         ctx.count("pruned-successors")
         ctx.count(f"viol:{D.name}:{opname(op)}")
         return None
     # (c) + (d): all forms agree, modulo target-axis group metadata where the property leaves it free
     P = passed[0]
+    cd_ok = True
     for F, out, kf, ks in passed[1:]:
         same = (ks == P[3]) if (F.free or P[0].free) else (kf == P[2])
         if not same:
-            all_ok = False
+            all_ok = cd_ok = False
             ctx.violation(F.base + ":differs-from:" + P[0].meth,
                           f"[{D.name}] {F.meth} and {P[0].meth} both satisfy the reference but leave different object "
                           f"states ({_diff(D, out, P[1])})", case)
@@ -731,8 +743,11 @@ def step(ctx, D, node, op, history, do_live=True):
         if succ_ref.grouped[k] == FREE:
             succ_ref.grouped[k] = bool(getattr(S[1], "is_grouped" + R.SUFFIX[k])())
     succ = Node(S[1], succ_ref, S[2], node.init)
-    # (f) live in-place history == functional chain
-    if all_ok and do_live and len(history) >= 1:     # with an empty history (f) coincides with the mutating form
+    # (f) live in-place history == functional chain.  Meaningful only while every step so far could be performed in
+    # place by its live form (otherwise the replay would merely repeat a violation that is already recorded).
+    LF = next(f for f in forms if f.meth.startswith(LIVE_FORM[op["op"]]))
+    lf_ok = any(p[0] is LF for p in passed) and cd_ok
+    if lf_ok and node.live_ok and do_live and len(history) >= 1:   # (empty history: (f) == the mutating form)
         def live():
             r = initial_ref(D, node.init)
             o = build(D, r)
@@ -750,13 +765,14 @@ def step(ctx, D, node, op, history, do_live=True):
             require(k_live == k_fun, ":live-history-differs",
                     lambda: f"replaying the whole history in place on one object gives a different state than the "
                             f"copy-based chain ({_diff(D, o, S[1])})")
-        LF = next(f for f in forms if f.meth.startswith(LIVE_FORM[op["op"]]))
         res = run_guarded(LF, live)
-        if res is None:
-            pass
-        else:
+        ctx.count("live-history-replays")
+        if res is not None:
             all_ok = False
             ctx.violation(LF.base + ":live" + res[0].lstrip("@"), f"[{D.name}] " + res[1], case)
+    elif do_live and len(history) >= 1:
+        ctx.count("live-history-replays-skipped-after-violation")
+    succ.live_ok = node.live_ok and lf_ok
     if all_ok:
         ctx.traces += 1          # a complete reference behaviour (history + this op) replayed on the implementation
     else:
@@ -892,8 +908,6 @@ def explore_shard(ctx, D, inits, depth, nmax, part=None, do_live=True, gt=False)
                 if succ.key != node.key:
                     ctx.nontriv(hashlib.blake2b(node.key + repr(sorted(op.items())).encode(), digest_size=8).digest())
                     ctx.count(f"changes:{D.name}:{opname(op)}")
-                if op.get("operand"):
-                    ctx.flag(f"operand-{op['operand']}:{D.name}:{op['kind']}")
                 if ctx.evaluations % 5003 == 1:
                     ctx.sample({"cls": D.name, "init": node.init, "history": list(h), "op": op,
                                 "result_shape": list(succ.obj.mat.shape)})
@@ -993,8 +1007,17 @@ def json_key(i):
     return repr(sorted(i.items()))
 
 
+def _only():
+    """Debug facility: VERIF_C03_ONLY=ClassA,ClassB restricts a run to the shards (and vacuity guards) of those
+    classes.  Unset in every registered command; used to localise a violation quickly."""
+    import os
+    v = os.environ.get("VERIF_C03_ONLY", "").strip()
+    return [x for x in v.split(",") if x] or None
+
+
 def shards(tier, seed):
-    return plan(tier)
+    only = _only()
+    return [s for s in plan(tier) if only is None or s[0] in only]
 
 
 def run_shard(spec, ctx):
@@ -1033,7 +1056,10 @@ def expected_methods(D):
 def finalize(ctx, tier, seed):
     """Vacuity guards: the exploration must have exercised what it claims to cover."""
     c = ctx.counters
+    only = _only()
     for name in CLASSES:
+        if only is not None and name not in only:
+            continue
         D = Desc.get(name, seed)
         assert c.get(f"bfs-states:{name}", 0) > 10, name
         for m in sorted(expected_methods(D)):
@@ -1054,12 +1080,15 @@ def finalize(ctx, tier, seed):
             assert f"profile:{name}:dup" in ctx.flags, name
             assert any(f.startswith(f"profile:{name}:no_") for f in ctx.flags), name
             assert len(D.fields) == 1 or f"profile:{name}:bare" in ctx.flags, name
-    for pname, inv in GT_PROTOS:
-        assert c.get(f"op:{pname}:invert={inv}", 0) > 0, pname
-    assert c.get("genotyping-vrnt-grouped-out", 0) > 0 and c.get("genotyping-masked-some", 0) > 0
-    assert len(ctx.outcomes) > 1000, len(ctx.outcomes)
-    assert ctx.traces > 1000, ctx.traces
-    assert len(ctx.nontrivial) > 1000
+    if only is None or "DensePhasedGenotypeMatrix" in only:
+        for pname, inv in GT_PROTOS:
+            assert c.get(f"op:{pname}:invert={inv}", 0) > 0, pname
+        assert c.get("genotyping-vrnt-grouped-out", 0) > 0 and c.get("genotyping-masked-some", 0) > 0
+    if only is not None:
+        ctx.capped.append("VERIF_C03_ONLY restricts this run to " + ",".join(only))
+    assert len(ctx.outcomes) > (1000 if only is None else 10), len(ctx.outcomes)
+    assert ctx.traces > (1000 if only is None else 10), ctx.traces
+    assert len(ctx.nontrivial) > (1000 if only is None else 10)
 
 
 # ------------------------------------------------------------------------------------------------------------------
